@@ -17,6 +17,10 @@ def run(ctx):
     P.C09_grammar_gaps(ctx, "C09.R5", G)
     from rules import symprint
     symprint.comment_order(ctx, "C09.R4", core, G)
+    from rules import panics
+    panics.comment_slots_accepted(ctx, "C09.R7", [core, cli, wasm], G)
+    panics.comment_text_whole(ctx, "C09.R8", core)
+    panics.driver_appends_only(ctx, "C09.R9", [core, cli, wasm])
     # ---- R6 a comment is the rest of the physical line
     ctx.rule("C09.R6", "every comment rule consumes the text up to the physical end of the line: its stop look-ahead cannot itself start with `//` (a stop rule that includes an inline comment cuts a comment in two at a second `//`, e.g. a URL)", floor=3)
     for r in ("comment", "eol_comment", "inline_comment"):
